@@ -863,6 +863,7 @@ func (ms *ModbusServer) startTLS(tcpSock net.Conn) (
 // If multiple or invalid role extensions are found, a nil string is returned (R-65, R-22).
 func (ms *ModbusServer) extractRole(cert *x509.Certificate) (role string) {
 	var err     error
+	var rest    []byte
 	var found   bool
 	var badCert bool
 
@@ -886,9 +887,16 @@ func (ms *ModbusServer) extractRole(cert *x509.Certificate) (role string) {
 			}
 
 			// extract the ASN1 string
-			_, err = asn1.Unmarshal(ext.Value, &role)
+			rest, err = asn1.Unmarshal(ext.Value, &role)
 			if err != nil {
 				ms.logger.Warningf("failed to decode Modbus Role extension: %v", err)
+				badCert = true
+				break
+			}
+
+			// the extension value must hold the string and nothing else
+			if len(rest) != 0 {
+				ms.logger.Warning("trailing data after the Modbus Role extension string")
 				badCert = true
 				break
 			}
